@@ -26,6 +26,7 @@ class Log(object):
         self.evals = collections.Counter()       # monitor -> evaluations
         self.sites = collections.defaultdict(set)  # monitor -> call sites
         self.nviol = collections.Counter()
+        self.nfind = collections.Counter()       # (property, finding) -> n
         self.violations = []
         self.sig = collections.Counter()         # behaviour signatures
         self.counters = collections.Counter()    # free-form counters
@@ -48,7 +49,15 @@ class Log(object):
                'observed': observed, 'expected': expected, 'note': note}
         if extra:
             rec.update(extra)
-        if self.nviol[monitor] <= self.MAX_KEEP:
+        # every violating execution is counted per (property, finding);
+        # records are kept per (monitor, finding) so that unexplained ones
+        # are never crowded out by executions of a known finding
+        fkey = '%s|%s' % (prop, rec.get('finding'))
+        self.nfind[fkey] += 1
+        kkey = (monitor, rec.get('finding'))
+        self._kept = getattr(self, '_kept', collections.Counter())
+        self._kept[kkey] += 1
+        if self._kept[kkey] <= self.MAX_KEEP:
             self.violations.append(rec)
         if self.raising:
             raise PostBroken(json.dumps(rec, default=repr)[:2000])
@@ -65,6 +74,7 @@ class Log(object):
             'evals': dict(self.evals),
             'sites': {k: sorted(v) for k, v in self.sites.items()},
             'nviol': dict(self.nviol),
+            'nfind': dict(self.nfind),
             'violations': self.violations,
             'sig': {str(k): v for k, v in self.sig.items()},
             'counters': dict(self.counters),
